@@ -144,6 +144,10 @@ class ExcelInPython:
                     if isinstance(right_operand, datetime.date) and not isinstance(right_operand, datetime.datetime):
                         right_operand = datetime.datetime(right_operand.year, right_operand.month, right_operand.day)
                     
+                    if isinstance(left_operand, str) and isinstance(right_operand, str):
+                        # texts are compared without regard to case, like Excel does: "a"="A" is TRUE, "B">"a" as well
+                        left_operand, right_operand = left_operand.lower(), right_operand.lower()
+
                     return self._by_operator(operator, left_operand, right_operand)
                 except (ValueError, TypeError):
                     return self._by_operator(operator, str(left_operand), str(right_operand))
